@@ -2,6 +2,7 @@
 From Coq Require Import List String Ascii Bool NArith.
 Import ListNotations.
 From VF Require Import common.Json C07.ParseModel.
+Open Scope list_scope.
 Open Scope string_scope.
 
 Lemma decode_nomatch k ms acc :
@@ -27,4 +28,27 @@ Proof.
   - assert (Hne : String.eqb k k' = false).
     { destruct (String.eqb k k') eqn:E3; [|reflexivity]. apply String.eqb_eq in E3. subst. rewrite String.eqb_refl in E. discriminate. }
     rewrite Hne. apply IH; [exact ND'|]. intros k2 v2 I. apply (H k2 v2). right. exact I.
+Qed.
+
+Lemma decode_field_app k a b acc : decode_field k (a ++ b) acc = decode_field k b (decode_field k a acc).
+Proof.
+  revert acc. induction a as [|[k' v] a IH]; intro acc; cbn; [reflexivity|].
+  destruct (String.eqb (fold k') (fold k)); apply IH.
+Qed.
+
+Lemma lookup_app_first (a b : list (string * json)) k v : lookup a k = Some v -> lookup (a ++ b) k = Some v.
+Proof. induction a as [|[k2 v2] a IH]; cbn; [discriminate|]. destruct (String.eqb k k2); auto. Qed.
+
+(* the guard of parsed_is_lookup is tight: a member appended after the others whose name folds to the same field name but
+   is another name, with another value, DOES take the signed member's place *)
+Lemma parsed_guard_exact k ms v k' v' :
+  lookup ms k = Some v -> fold k' = fold k -> k' <> k -> v' <> v ->
+  parsed_field k (ms ++ [(k', v')]) = Some v' /\ lookup (ms ++ [(k', v')]) k = Some v /\
+  parsed_field k (ms ++ [(k', v')]) <> lookup (ms ++ [(k', v')]) k.
+Proof.
+  intros L F N V.
+  assert (A : parsed_field k (ms ++ [(k', v')]) = Some v').
+  { unfold parsed_field. rewrite decode_field_app. cbn. rewrite F, String.eqb_refl. reflexivity. }
+  assert (B : lookup (ms ++ [(k', v')]) k = Some v) by (apply lookup_app_first; exact L).
+  split; [exact A|]. split; [exact B|]. rewrite A, B. intro H. inversion H. contradiction.
 Qed.
